@@ -273,6 +273,28 @@ CHECKS = {
               'tests pin the behaviour (default names collide after ComposedPopulationModel.set_dim_names(None); ReducedPopulationModel.n_ids()).'),
         technique='contract-based: representation invariants on the real classes as run-time contracts, exhaustively enumerated bounded configurations and histories (bounded stand-in); one symbolic-n obligation discharged deductively',
     ),
+    'C19': dict(
+        category='proof',
+        text=('The history property is reduced to per-method contracts and closed by induction over call histories.  frame: every evaluation method '
+              '(value, pointwise values, value with sensitivities, seeded sampling) of the four error models, the population models (elementary, '
+              'covariate, composed, reduced), LogLikelihood over real SBML / PKPD / reduced mechanistic models behind the ghost solver, '
+              'HierarchicalLogLikelihood, the three posteriors, the Gaussian / log-normal filters and the predictive models, executed with symbolic '
+              'arguments on the real code, leaves the deep snapshot of its object unchanged except the declared hidden fields (sensitivity switch and '
+              'solver object, contents of the fixed-value buffers) and leaves its argument arrays unchanged.  independent: for every ordered pair of '
+              'methods the result of the second after the first (other symbols) is the same term as on a fresh object -- for mechanistic models: the '
+              'solver is asked the same initial-value problem incl. the dosing protocol -- and results returned earlier are not changed by later calls.  '
+              'owned: for every owner (LogLikelihood, PredictiveModel, ProblemModellingController) x user mechanistic model kind (SBML, PKPD dosed / '
+              'with sensitivities, reduced, copy of reduced) x error model kind the owner shares no mutable object with the user models (heap-shape '
+              'analysis), so no later change to them can reach it.  Bounded run-time contracts on top: executed histories of length 3 with sibling '
+              'objects interleaved, later public mutations of the user models, sequential versus forked-worker evaluation (pints evaluators), and '
+              'array / data-frame / dataset arguments unchanged.'),
+        design_ref='DESIGN.md section 4 (C19)',
+        note=('Structure bounded (2 individuals, <= 3 time points, n_dim <= 2), values symbolic; ODE solver and RNG by their ghost contracts; KDE / mixture '
+              'filters are outside the object-array engine and only covered by the bounded part; refutations replayed natively (numeric stand-in '
+              'solver); user-defined model subclasses are outside the claim.  Two genuine defects found by this check were repaired (fix commits '
+              '7440323, 1ffe174: results aliasing the fixed-value buffer of a reduced population model).'),
+        technique='contract-based deductive verification: frame conditions and hidden-state independence per method (symbolic execution of the real code, deep snapshots, result terms), ownership by heap-shape analysis, induction over histories; bounded run-time contracts for processes and inputs',
+    ),
 }
 NOT_APPLICABLE = {}
 
@@ -294,4 +316,5 @@ CHECK_MODULES = {
     'C15': 'contracts.c15',
     'C16': 'contracts.c16',
     'C17': 'contracts.c17',
+    'C19': 'contracts.c19',
 }
